@@ -302,7 +302,7 @@ func (g *storeGen) idiom() []Step {
 	deq := func(ttl time.Duration) Step {
 		return Step{Op: "dequeue", Route: route, Target: target, Batch: 1, TTL: ttl}
 	}
-	switch rapid.SampledFrom([]string{"dead", "acked", "expired", "mixed_batch", "fill", "prune_pass", "bulk", "newer_rows"}).Draw(t, "i.kind") {
+	switch rapid.SampledFrom([]string{"dead", "acked", "expired", "mixed_batch", "fill", "prune_pass", "bulk", "newer_rows", "staggered", "staggered", "extended"}).Draw(t, "i.kind") {
 	case "dead":
 		return []Step{enq(), deq(30 * time.Second), {Op: "dead", LeaseRef: intp(0), Reason: "manual"}}
 	case "acked":
@@ -329,6 +329,35 @@ func (g *storeGen) idiom() []Step {
 			st = deq(time.Second)
 		}
 		return []Step{{Op: "advance", D: d}, st}
+	case "staggered":
+		// several leases outstanding at once with different expiry instants, then
+		// polls at instants between, at and after those expiries: each message has
+		// to come back at its own expiry (and not before)
+		n := rapid.IntRange(2, 4).Draw(t, "i.n")
+		ttls := []time.Duration{5 * time.Millisecond, 20 * time.Millisecond, time.Second, 30 * time.Second}
+		gaps := []time.Duration{time.Millisecond, 5 * time.Millisecond, 15 * time.Millisecond, 20 * time.Millisecond, 999 * time.Millisecond, time.Second, 29 * time.Second, 30 * time.Second}
+		var out []Step
+		for i := 0; i < n; i++ {
+			out = append(out, enq())
+		}
+		for i := 0; i < n; i++ {
+			out = append(out, deq(rapid.SampledFrom(ttls).Draw(t, "i.ttl")), Step{Op: "advance", D: rapid.SampledFrom(gaps).Draw(t, "i.gap")})
+		}
+		for i := rapid.IntRange(2, 5).Draw(t, "i.polls"); i > 0; i-- {
+			d := deq(rapid.SampledFrom(ttls).Draw(t, "i.pttl"))
+			d.Batch = rapid.SampledFrom([]int{1, 1, 2, 5}).Draw(t, "i.pbatch")
+			out = append(out, d, Step{Op: "advance", D: rapid.SampledFrom(gaps).Draw(t, "i.pgap")})
+		}
+		return out
+	case "extended":
+		// a lease that is extended, then polls around the original and the
+		// extended expiry; the holder settles at the end
+		ttl := rapid.SampledFrom([]time.Duration{20 * time.Millisecond, time.Second, 30 * time.Second}).Draw(t, "i.ttl")
+		ext := rapid.SampledFrom([]time.Duration{time.Millisecond, 10 * time.Millisecond, time.Second, time.Minute}).Draw(t, "i.ext")
+		out := []Step{enq(), deq(ttl), {Op: "advance", D: ttl / 2}, {Op: "extend", LeaseRef: intp(0), Delay: ext}}
+		out = append(out, Step{Op: "advance", D: rapid.SampledFrom([]time.Duration{ttl / 2, ttl/2 + ext/2, ttl/2 + ext - 1, ttl/2 + ext}).Draw(t, "i.wait")}, deq(time.Second))
+		out = append(out, Step{Op: rapid.SampledFrom([]string{"ack", "nack", "dead", "extend"}).Draw(t, "i.settle"), LeaseRef: intp(rapid.IntRange(0, 1).Draw(t, "i.ref")), Delay: time.Millisecond, Reason: "manual"})
+		return out
 	case "newer_rows":
 		// rows of other states received after whatever exists now
 		return []Step{{Op: "advance", D: time.Millisecond}, enq(), enq(), enq()}
